@@ -21,11 +21,13 @@ namespace BitSerializer
 			std::vector<TValue> temp;
 			Detail::SerializeContainer(archive, temp);
 
-			cont.resize(temp.size());
+			// Fill new array and swap (`std::valarray::resize()` leaves the array in an unusable state when allocation fails)
+			std::valarray<TValue> loadedArray(temp.size());
 			for (size_t i = 0; i < temp.size(); ++i)
 			{
-				cont[i] = std::move(temp[i]);
+				loadedArray[i] = std::move(temp[i]);
 			}
+			cont.swap(loadedArray);
 		}
 		else
 		{
